@@ -28,6 +28,8 @@ def rat(x, exact=True):
         if f.denominator > LIMIT or abs(f.numerator) > (1 << 30):
             raise Inexact("non-dyadic coefficient %r" % x)
         return f
+    if f.denominator <= LIMIT and abs(f.numerator) <= (1 << 30):
+        return f                      # an exact dyadic number with a short mantissa (e.g. 1 + 2^-20)
     g = f.limit_denominator(4096)
     if abs(float(g) - x) > 1e-12 * max(1.0, abs(x)):
         raise Inexact("coefficient %r is not a small rational" % x)
